@@ -1,6 +1,709 @@
 package main
 
-func runCheck(id, tier string, o RunOpts) int { return 2 }
-func replayFile(path string) int              { return 2 }
+// Property checks: run the harnesses of one property, validate the translator
+// on solver-chosen witnesses, replay every counterexample natively, apply the
+// known-findings policy, write the evidence file, print VIOLATION lines.
+
+import (
+	"bufio"
+	"crypto/sha256"
+	"encoding/json"
+	"fmt"
+	"os"
+	"os/exec"
+	"path/filepath"
+	"regexp"
+	"sort"
+	"strings"
+	"time"
+
+	"golang.org/x/tools/go/ssa"
+)
 
 type rsGroup struct{}
+
+type Witness struct {
+	Harness  string
+	Model    map[string]uint64
+	Arrays   map[string][]uint64
+	Observes map[string]uint64
+	Reached  []string
+	Decision int
+}
+
+type modelFile struct {
+	Harness string              `json:"harness"`
+	Label   string              `json:"label"`
+	Kind    string              `json:"kind"`
+	Site    string              `json:"site,omitempty"`
+	Msg     string              `json:"msg,omitempty"`
+	Vars    map[string]uint64   `json:"vars"`
+	Arrays  map[string][]uint64 `json:"arrays"`
+	Tier    int                 `json:"tier"`
+	Prefix  []Decision          `json:"prefix,omitempty"`
+}
+
+func verifDir() string {
+	exe, _ := os.Executable()
+	return filepath.Dir(filepath.Dir(exe))
+}
+
+// ---------- native runner ----------
+
+type nativeRunner struct {
+	dir    string
+	bin    string
+	buildS float64
+	clock  bool // currentMs patched
+	err    error
+	log    string
+}
+
+type nativeResult struct {
+	File        string            `json:"file"`
+	Harness     string            `json:"harness"`
+	Failures    []string          `json:"failures"`
+	AssumeFails []string          `json:"assume_fails"`
+	Reached     []string          `json:"reached"`
+	Observes    map[string]uint64 `json:"observes"`
+	Panic       string            `json:"panic"`
+	Stack       string            `json:"stack"`
+	Error       string            `json:"error"`
+}
+
+var currentMsRe = regexp.MustCompile(`(?m)^func currentMs\(\) uint32 \{[^\n]*\}\s*$`)
+
+func buildNative(p *Program, harnesses []string) *nativeRunner {
+	t0 := time.Now()
+	nr := &nativeRunner{}
+	dir, err := os.MkdirTemp("", "vfnative-")
+	if err != nil {
+		nr.err = err
+		return nr
+	}
+	nr.dir = dir
+	repl := map[string]string{}
+	ents, _ := os.ReadDir(harnessDir())
+	for _, e := range ents {
+		n := e.Name()
+		if strings.HasSuffix(n, ".go") {
+			v := "zz_vf_" + n
+			repl[filepath.Join(repoDir, v)] = filepath.Join(harnessDir(), n)
+		}
+	}
+	// registry
+	var sb strings.Builder
+	sb.WriteString("package kcp\n\nvar vfRegistry = map[string]func(){\n")
+	for _, h := range harnesses {
+		fmt.Fprintf(&sb, "\t%q: %s,\n", h, h)
+	}
+	sb.WriteString("}\n")
+	reg := filepath.Join(dir, "registry_test.go")
+	os.WriteFile(reg, []byte(sb.String()), 0o644)
+	repl[filepath.Join(repoDir, "zz_vf_registry_test.go")] = reg
+	// clock-patched kcp.go
+	if src, err := os.ReadFile(filepath.Join(repoDir, "kcp.go")); err == nil {
+		if currentMsRe.Match(src) {
+			patched := currentMsRe.ReplaceAll(src, []byte("func currentMs() uint32 { return vfNativeClock() }"))
+			kp := filepath.Join(dir, "kcp_clock.go")
+			os.WriteFile(kp, patched, 0o644)
+			repl[filepath.Join(repoDir, "kcp.go")] = kp
+			nr.clock = true
+		}
+	}
+	ov, _ := json.Marshal(map[string]interface{}{"Replace": repl})
+	ovp := filepath.Join(dir, "overlay.json")
+	os.WriteFile(ovp, ov, 0o644)
+	nr.bin = filepath.Join(dir, "kcp.test")
+	cmd := exec.Command("go", "test", "-c", "-vet=off", "-overlay", ovp, "-o", nr.bin, ".")
+	cmd.Dir = repoDir
+	cmd.Env = append(os.Environ(), "GOFLAGS=-mod=mod", "GOPROXY=off", "GOTOOLCHAIN=local")
+	out, err := cmd.CombinedOutput()
+	nr.log = string(out)
+	if err != nil {
+		nr.err = fmt.Errorf("native build failed: %v\n%s", err, out)
+	}
+	nr.buildS = time.Since(t0).Seconds()
+	return nr
+}
+
+func (nr *nativeRunner) close() {
+	if nr.dir != "" {
+		os.RemoveAll(nr.dir)
+	}
+}
+
+func (nr *nativeRunner) run(files []string) (map[string]*nativeResult, error) {
+	res := map[string]*nativeResult{}
+	if nr.err != nil {
+		return res, nr.err
+	}
+	if len(files) == 0 {
+		return res, nil
+	}
+	list := filepath.Join(nr.dir, fmt.Sprintf("models-%d.txt", time.Now().UnixNano()))
+	os.WriteFile(list, []byte(strings.Join(files, "\n")+"\n"), 0o644)
+	cmd := exec.Command(nr.bin, "-test.run", "^TestVfReplay$", "-test.count=1", "-test.timeout=600s")
+	cmd.Dir = repoDir
+	cmd.Env = append(os.Environ(), "VF_MODELS="+list)
+	out, err := cmd.CombinedOutput()
+	sc := bufio.NewScanner(strings.NewReader(string(out)))
+	sc.Buffer(make([]byte, 1<<20), 1<<26)
+	for sc.Scan() {
+		line := sc.Text()
+		if strings.HasPrefix(line, "VFRESULT ") {
+			var r nativeResult
+			if json.Unmarshal([]byte(line[9:]), &r) == nil {
+				res[r.File] = &r
+			}
+		}
+	}
+	if err != nil && len(res) < len(files) {
+		tail := string(out)
+		if len(tail) > 2000 {
+			tail = tail[len(tail)-2000:]
+		}
+		return res, fmt.Errorf("native run: %v: %s", err, tail)
+	}
+	return res, nil
+}
+
+// ---------- known findings ----------
+
+type knownFinding struct {
+	kind string // known | fixed
+	prop string
+	key  string
+	text string
+}
+
+func loadKnown() []knownFinding {
+	var out []knownFinding
+	b, err := os.ReadFile(filepath.Join(verifDir(), "known_findings.txt"))
+	if err != nil {
+		return nil
+	}
+	for _, line := range strings.Split(string(b), "\n") {
+		line = strings.TrimSpace(line)
+		if line == "" || strings.HasPrefix(line, "#") {
+			continue
+		}
+		var kf knownFinding
+		switch {
+		case strings.HasPrefix(line, "known:"):
+			kf.kind = "known"
+			line = strings.TrimSpace(line[6:])
+		case strings.HasPrefix(line, "fixed:"):
+			kf.kind = "fixed"
+			line = strings.TrimSpace(line[6:])
+		default:
+			continue
+		}
+		fields := strings.Fields(line)
+		rest := []string{}
+		for _, f := range fields {
+			switch {
+			case strings.HasPrefix(f, "property=") && kf.prop == "":
+				kf.prop = f[9:]
+			case strings.HasPrefix(f, "key=") && kf.key == "":
+				kf.key = f[4:]
+			default:
+				rest = append(rest, f)
+			}
+		}
+		kf.text = strings.Join(rest, " ")
+		out = append(out, kf)
+	}
+	return out
+}
+
+// ---------- static scan of harness labels (vacuity guard) ----------
+
+func scanLabels(fn *ssa.Function, seen map[*ssa.Function]bool, reach, asserts map[string]bool) {
+	if fn == nil || seen[fn] || fn.Blocks == nil {
+		return
+	}
+	seen[fn] = true
+	for _, b := range fn.Blocks {
+		for _, in := range b.Instrs {
+			if mc, ok := in.(*ssa.MakeClosure); ok {
+				scanLabels(mc.Fn.(*ssa.Function), seen, reach, asserts)
+			}
+			c, ok := in.(ssa.CallInstruction)
+			if !ok {
+				continue
+			}
+			callee := c.Common().StaticCallee()
+			if callee == nil {
+				continue
+			}
+			switch callee.Name() {
+			case "vfReach":
+				if k, ok := c.Common().Args[0].(*ssa.Const); ok {
+					reach[constString(k)] = true
+				}
+			case "vfAssert", "vfLemma":
+				if k, ok := c.Common().Args[0].(*ssa.Const); ok {
+					asserts[constString(k)] = true
+				}
+			}
+		}
+	}
+}
+
+func constString(k *ssa.Const) string {
+	s := k.Value.ExactString()
+	if len(s) >= 2 && s[0] == '"' {
+		var out string
+		if json.Unmarshal([]byte(s), &out) == nil {
+			return out
+		}
+	}
+	return s
+}
+
+// ---------- the check ----------
+
+type checkSpec struct {
+	level       string
+	assumptions []string
+	stubs       []string
+	bounds      map[string]string // tier -> text
+	outside     string
+}
+
+func sanitize(s string) string {
+	r := regexp.MustCompile(`[^A-Za-z0-9_.-]+`).ReplaceAllString(s, "_")
+	if len(r) > 80 {
+		r = r[:80]
+	}
+	return r
+}
+
+func fileHash(path string) string {
+	b, err := os.ReadFile(path)
+	if err != nil {
+		return ""
+	}
+	h := sha256.Sum256(b)
+	return fmt.Sprintf("%x", h[:6])
+}
+
+func runCheck(id, tier string, o RunOpts) int {
+	t0 := time.Now()
+	vd := verifDir()
+	evPath := filepath.Join(vd, "evidence", id+".json")
+	os.MkdirAll(filepath.Join(vd, "evidence", "replay"), 0o755)
+	os.Remove(evPath)
+	fail := func(msg string) int {
+		fmt.Printf("CHECK-ERROR property=%s %s\n", id, msg)
+		writeEvidence(evPath, id, tier, o.seed, map[string]interface{}{
+			"evaluations": 0, "distinct_nontrivial": 0, "explanation": "check could not run: " + msg,
+		}, nil, time.Since(t0).Seconds(), 0)
+		return 2
+	}
+	p, err := loadProgram()
+	if err != nil {
+		return fail("cannot load /repo with harness overlay: " + err.Error())
+	}
+	spec := checkSpecs[id]
+	if spec == nil {
+		return fail("no check registered for " + id)
+	}
+	var harnesses, all []string
+	for n, m := range p.pkg.Members {
+		if _, ok := m.(*ssa.Function); !ok || !strings.HasPrefix(n, "vfH_") {
+			continue
+		}
+		all = append(all, n)
+		if strings.HasPrefix(n, "vfH_"+id+"_") {
+			if strings.HasSuffix(n, "_thorough") && tier != "thorough" {
+				continue
+			}
+			harnesses = append(harnesses, n)
+		}
+	}
+	sort.Strings(harnesses)
+	sort.Strings(all)
+	if len(harnesses) == 0 {
+		return fail("no harness for " + id)
+	}
+	// native build runs concurrently with the symbolic runs
+	nrCh := make(chan *nativeRunner, 1)
+	go func() { nrCh <- buildNative(p, all) }()
+
+	o.witnesses = 2
+	if tier == "thorough" {
+		o.witnesses = 4
+	}
+	var results []*HarnessResult
+	for _, h := range harnesses {
+		r := runHarness(p, h, o)
+		results = append(results, r)
+		fmt.Printf("harness %s: paths=%d decisions=%d queries=%d (unsat %d sat %d unknown %d) solver=%.1fs wall=%.1fs findings=%d inconclusive=%d\n",
+			h, r.Paths, r.Decisions, r.Queries, r.QUnsat, r.QSat, r.QUnknown, r.SolverS, r.WallS, len(r.Findings), len(r.Incon))
+	}
+	nr := <-nrCh
+	defer nr.close()
+	if nr.err != nil {
+		fmt.Printf("NATIVE-BUILD-ERROR %v\n", nr.err)
+	}
+
+	known := loadKnown()
+	violations := 0
+	var problems []string // things that make the run inconclusive / broken
+	var samples []interface{}
+	funcs := map[string]bool{}
+	totals := map[string]int{}
+	var solverS float64
+	assertLabels := map[string]int{}
+	var knownMatched, unconfirmed []string
+	tracesValidated := 0
+	var witnessFiles []string
+	witnessOf := map[string]*Witness{}
+	findingFiles := map[string]*Finding{}
+	findingHarness := map[string]*HarnessResult{}
+
+	for _, r := range results {
+		fn := p.pkg.Func(r.Name)
+		reach, asserts := map[string]bool{}, map[string]bool{}
+		scanLabels(fn, map[*ssa.Function]bool{}, reach, asserts)
+		for l := range reach {
+			if !r.Reached[l] {
+				problems = append(problems, fmt.Sprintf("%s: vacuous — vfReach(%q) has no feasible path", r.Name, l))
+			}
+		}
+		for l := range asserts {
+			if r.Asserted[l] == 0 && r.FindingCnt[l] == 0 {
+				problems = append(problems, fmt.Sprintf("%s: assertion %q was never evaluated", r.Name, l))
+			}
+		}
+		if r.Ends["ok"]+r.Ends["exit"] == 0 {
+			problems = append(problems, fmt.Sprintf("%s: no path ran to completion (%v)", r.Name, r.Ends))
+		}
+		for _, s := range r.Incon {
+			problems = append(problems, r.Name+": "+s)
+		}
+		if r.PathBudget {
+			problems = append(problems, r.Name+": path budget exhausted")
+		}
+		for _, e := range r.SolverErrs {
+			problems = append(problems, r.Name+": solver error line: "+e)
+		}
+		for f := range r.Funcs {
+			funcs[f] = true
+		}
+		totals["paths"] += r.Paths
+		totals["decisions"] += r.Decisions
+		totals["queries"] += r.Queries
+		totals["unsat"] += r.QUnsat
+		totals["sat"] += r.QSat
+		totals["unknown"] += r.QUnknown
+		totals["steps"] += r.Steps
+		solverS += r.SolverS
+		for l, n := range r.Asserted {
+			assertLabels[r.Name+"/"+l] += n
+		}
+		for i, w := range r.Witnesses {
+			f := filepath.Join(nr.dir, fmt.Sprintf("w-%s-%d.json", r.Name, i))
+			mf := modelFile{Harness: r.Name, Kind: "witness", Vars: w.Model, Arrays: w.Arrays, Tier: o.tier}
+			b, _ := json.Marshal(mf)
+			if nr.dir != "" {
+				os.WriteFile(f, b, 0o644)
+				witnessFiles = append(witnessFiles, f)
+				witnessOf[f] = w
+			}
+		}
+		for i := range r.Findings {
+			f := &r.Findings[i]
+			path := filepath.Join(vd, "evidence", "replay", fmt.Sprintf("%s-%s-%s.json", id, strings.TrimPrefix(r.Name, "vfH_"), sanitize(f.Label)))
+			mf := modelFile{Harness: r.Name, Label: f.Label, Kind: f.Kind, Site: f.Site, Msg: f.Msg, Vars: f.Model, Arrays: f.Arrays, Tier: o.tier, Prefix: f.Prefix}
+			b, _ := json.MarshalIndent(mf, "", " ")
+			os.WriteFile(path, b, 0o644)
+			findingFiles[path] = f
+			findingHarness[path] = r
+		}
+		if len(samples) < 12 {
+			samples = append(samples, map[string]interface{}{
+				"harness": r.Name, "paths": r.Paths, "ends": r.Ends, "sample_path_condition": r.SamplePath,
+				"labels_discharged": len(r.Asserted), "reach_labels": keys(r.Reached),
+			})
+		}
+	}
+
+	// translator validation on witnesses + replay of findings, one native process
+	var nativeFiles []string
+	nativeFiles = append(nativeFiles, witnessFiles...)
+	var fpaths []string
+	for path := range findingFiles {
+		fpaths = append(fpaths, path)
+	}
+	sort.Strings(fpaths)
+	nativeFiles = append(nativeFiles, fpaths...)
+	nres, nerr := nr.run(nativeFiles)
+	if nerr != nil {
+		problems = append(problems, "native replay run failed: "+nerr.Error())
+	}
+	for _, wf := range witnessFiles {
+		w := witnessOf[wf]
+		nr1 := nres[wf]
+		if nr1 == nil {
+			problems = append(problems, "translator validation: no native result for a witness of "+w.Harness)
+			continue
+		}
+		bad := ""
+		switch {
+		case nr1.Error != "":
+			bad = "error " + nr1.Error
+		case nr1.Panic != "":
+			bad = "native panic " + nr1.Panic
+		case len(nr1.AssumeFails) > 0:
+			bad = "native run violates an assumption the model satisfies: " + strings.Join(nr1.AssumeFails, "; ")
+		case len(nr1.Failures) > 0:
+			bad = "native run fails assertions gse discharged: " + strings.Join(nr1.Failures, ", ")
+		}
+		if bad == "" {
+			rs := map[string]bool{}
+			for _, l := range nr1.Reached {
+				rs[l] = true
+			}
+			for _, l := range w.Reached {
+				if !rs[l] {
+					bad = "native run does not reach " + l
+				}
+			}
+			for l, v := range w.Observes {
+				if nv, ok := nr1.Observes[l]; !ok || nv != v {
+					bad = fmt.Sprintf("observed value %s differs: gse %d native %d", l, v, nv)
+				}
+			}
+		}
+		if bad != "" {
+			problems = append(problems, fmt.Sprintf("translator validation failed for %s: %s", w.Harness, bad))
+		} else {
+			tracesValidated++
+		}
+	}
+
+	var violationLines []string
+	for _, path := range fpaths {
+		f := findingFiles[path]
+		r := findingHarness[path]
+		key := strings.TrimPrefix(r.Name, "vfH_") + "/" + f.Label
+		confirmed := false
+		how := ""
+		nr1 := nres[path]
+		switch f.Kind {
+		case "ghost":
+			// ghost-state assertions (pool ownership, lock discipline, write sets) have no native
+			// twin: the model is confirmed by concrete re-execution inside gse
+			ok, msg := reexecConcrete(p, path, o)
+			confirmed, how = ok, "gse concrete re-execution: "+msg
+		default:
+			if nr1 == nil {
+				how = "no native result"
+			} else if f.Kind == "panic" {
+				confirmed = nr1.Panic != "" && len(nr1.AssumeFails) == 0
+				how = "native panic: " + nr1.Panic
+			} else {
+				for _, l := range nr1.Failures {
+					if l == f.Label {
+						confirmed = true
+					}
+				}
+				how = fmt.Sprintf("native failures=%v assume_fails=%v panic=%q", nr1.Failures, nr1.AssumeFails, nr1.Panic)
+				if f.Kind == "assert" && !confirmed && nr1.Panic != "" {
+					how += " (native run panicked before the assertion)"
+				}
+			}
+		}
+		if !confirmed {
+			unconfirmed = append(unconfirmed, fmt.Sprintf("%s: model does not reproduce (%s)", key, how))
+			problems = append(problems, fmt.Sprintf("counterexample for %s did not reproduce natively (%s): engine/stub error, not reported as violation", key, how))
+			continue
+		}
+		if f.Kind == "lemma" {
+			fmt.Printf("UNCONFIRMED-LEMMA property=%s label=%s harness=%s (internal-representation lemma fails from a surgically built state; no API-level witness searched) replay=%s\n", id, f.Label, r.Name, path)
+			unconfirmed = append(unconfirmed, key+": lemma-level failure")
+			continue
+		}
+		matched := false
+		for _, kf := range known {
+			if kf.kind == "known" && kf.prop == id && kf.key == key {
+				fmt.Printf("KNOWN-FINDING: property=%s %s [%s]\n", id, kf.text, key)
+				knownMatched = append(knownMatched, key)
+				matched = true
+				break
+			}
+		}
+		if matched {
+			continue
+		}
+		violations++
+		violationLines = append(violationLines, fmt.Sprintf("VIOLATION property=%s replay=%s", id, path))
+		fmt.Printf("  violated: %s  %s\n  at %s\n  confirmed by %s\n", key, f.Msg, f.Site, how)
+	}
+
+	var fl []string
+	for f := range funcs {
+		if strings.Contains(f, "kcp-go") && !strings.Contains(f, ".vf") {
+			fl = append(fl, strings.ReplaceAll(f, kcpPath, "kcp"))
+		}
+	}
+	sort.Strings(fl)
+	srcHash := map[string]string{}
+	for _, f := range []string{"kcp.go", "sess.go", "fec.go", "ringbuffer.go", "crypt.go", "autotune.go", "timedsched.go", "bufferpool.go", "readloop.go", "entropy.go", "tx.go"} {
+		srcHash[f] = fileHash(filepath.Join(repoDir, f))
+	}
+	cov := map[string]interface{}{
+		"states":                        totals["paths"],
+		"transitions":                   max(totals["decisions"], 1),
+		"traces_validated_against_impl": tracesValidated,
+		"samples":                       samples,
+		"explanation": "bounded symbolic model checking: states = feasible paths of the real SSA explored to completion, transitions = branch/value/choice decisions; " +
+			"every assertion is an SMT query PC ∧ ¬cond over all input values within the stated bounds",
+		"harnesses":            harnesses,
+		"functions_encoded":    fl,
+		"source_hashes":        srcHash,
+		"bounds":               spec.bounds[tier],
+		"outside_the_claim":    spec.outside,
+		"stubs_used":           spec.stubs,
+		"queries":              map[string]int{"total": totals["queries"], "unsat": totals["unsat"], "sat": totals["sat"], "unknown": totals["unknown"]},
+		"assertions_discharged": assertLabels,
+		"instructions_executed": totals["steps"],
+		"solver_s":             solverS,
+		"solvers":              o.solver,
+		"encoding_load_s":      p.loadS + p.buildS,
+		"native_build_s":       nr.buildS,
+		"native_clock_patched": nr.clock,
+		"inconclusive":         problems,
+		"known_findings_matched": knownMatched,
+		"unconfirmed":          unconfirmed,
+		"witness_models_replayed": len(witnessFiles),
+	}
+	writeEvidence(evPath, id, tier, o.seed, cov, spec.assumptions, time.Since(t0).Seconds(), violations)
+	for _, l := range violationLines {
+		fmt.Println(l)
+	}
+	fmt.Printf("check %s tier=%s: harnesses=%d paths=%d queries=%d (unsat %d) validated-traces=%d violations=%d known=%d problems=%d wall=%.1fs\n",
+		id, tier, len(harnesses), totals["paths"], totals["queries"], totals["unsat"], tracesValidated, violations, len(knownMatched), len(problems), time.Since(t0).Seconds())
+	if violations > 0 {
+		return 1
+	}
+	if len(problems) > 0 {
+		for _, pr := range problems {
+			fmt.Printf("INCONCLUSIVE property=%s %s\n", id, pr)
+		}
+		return 3
+	}
+	return 0
+}
+
+func keys(m map[string]bool) []string {
+	var out []string
+	for k := range m {
+		out = append(out, k)
+	}
+	sort.Strings(out)
+	return out
+}
+
+func writeEvidence(path, id, tier string, seed int64, cov map[string]interface{}, assumptions []string, wall float64, violations int) {
+	if assumptions == nil {
+		assumptions = []string{}
+	}
+	ev := map[string]interface{}{
+		"property_id": id, "tier": tier, "seed": seed, "level": "model_checking",
+		"coverage": cov, "assumptions": assumptions, "wall_s": wall, "violations": violations,
+	}
+	if _, ok := cov["states"]; !ok {
+		ev["level"] = "other"
+	}
+	b, _ := json.MarshalIndent(ev, "", " ")
+	os.WriteFile(path, b, 0o644)
+}
+
+// reexecConcrete re-runs the recorded decision prefix in gse with every input
+// fixed to the model's value and reports whether the same label fails again.
+func reexecConcrete(p *Program, path string, o RunOpts) (bool, string) {
+	b, err := os.ReadFile(path)
+	if err != nil {
+		return false, err.Error()
+	}
+	var mf modelFile
+	if err := json.Unmarshal(b, &mf); err != nil {
+		return false, err.Error()
+	}
+	o.prefix = mf.Prefix
+	if o.prefix == nil {
+		o.prefix = []Decision{}
+	}
+	o.fixed = &mf
+	o.witnesses = 0
+	r := runHarness(p, mf.Harness, o)
+	for _, f := range r.Findings {
+		if f.Label == mf.Label {
+			return true, "same label fails with all inputs fixed to the model"
+		}
+	}
+	return false, fmt.Sprintf("label %s not reproduced; ends=%v findings=%d", mf.Label, r.Ends, len(r.Findings))
+}
+
+func replayFile(path string) int {
+	p, err := loadProgram()
+	if err != nil {
+		fmt.Println(err)
+		return 2
+	}
+	b, err := os.ReadFile(path)
+	if err != nil {
+		fmt.Println(err)
+		return 2
+	}
+	var mf modelFile
+	if err := json.Unmarshal(b, &mf); err != nil {
+		fmt.Println(err)
+		return 2
+	}
+	var all []string
+	for n, m := range p.pkg.Members {
+		if _, ok := m.(*ssa.Function); ok && strings.HasPrefix(n, "vfH_") {
+			all = append(all, n)
+		}
+	}
+	sort.Strings(all)
+	fmt.Printf("replay %s: harness=%s label=%s kind=%s\n", path, mf.Harness, mf.Label, mf.Kind)
+	if mf.Kind == "ghost" {
+		ok, msg := reexecConcrete(p, path, defaultOpts())
+		fmt.Printf("gse concrete re-execution: reproduced=%v (%s)\n", ok, msg)
+		if ok {
+			return 1
+		}
+		return 0
+	}
+	nr := buildNative(p, all)
+	defer nr.close()
+	res, err := nr.run([]string{path})
+	if err != nil {
+		fmt.Println(err)
+		return 2
+	}
+	r := res[path]
+	if r == nil {
+		fmt.Println("no native result")
+		return 2
+	}
+	jb, _ := json.MarshalIndent(r, "", " ")
+	fmt.Println(string(jb))
+	rep := r.Panic != "" && mf.Kind == "panic"
+	for _, l := range r.Failures {
+		if l == mf.Label {
+			rep = true
+		}
+	}
+	fmt.Printf("reproduced=%v\n", rep)
+	if rep {
+		return 1
+	}
+	return 0
+}
